@@ -134,6 +134,35 @@ def rule_algid(ctx, prop: str) -> RuleResult:
             if not ok:
                 res.add(Finding("ALGID", file, node.lineno, qn, f"{lhs_txt}{op}{rhs_txt}->{shown}",
                                 f"the simplifier rewrites `{lhs_txt} {op} {rhs_txt}` to `{shown}`, which is not an identity: the emitted / simplified index denotes a different value"))
+    # constant folding uses the floor-semantics operators
+    from .. import pat
+
+    if prop in ("C02", "C08", "C15"):
+        m = ix.module("src/exo/backend/LoopIR_compiler.py")
+        tbl = m.assigns.get("operations")
+        if not isinstance(tbl, ast.Dict):
+            raise AnalysisError("anchor vanished: `operations` folding table in LoopIR_compiler.py")
+        want = {"+": ast.Add, "-": ast.Sub, "*": ast.Mult, "/": ast.FloorDiv, "%": ast.Mod}
+        for k, v in zip(tbl.keys, tbl.values):
+            op = k.value if isinstance(k, ast.Constant) else None
+            res.instances += 1
+            res.nontrivial += 1
+            ok = (
+                op in want and isinstance(v, ast.Lambda) and isinstance(v.body, ast.BinOp) and isinstance(v.body.op, want[op])
+                and [a.arg for a in v.args.args] == [getattr(v.body.left, "id", None), getattr(v.body.right, "id", None)]
+            )
+            res.ob(ok)
+            res.sample(f"fold table: {op!r} -> {ast.unparse(v)}")
+            if not ok:
+                res.add(Finding("ALGID", m.rel, v.lineno, "operations", f"fold:{op}", f"literal index operands of `{op}` are folded with `{ast.unparse(v)}`: Exo's index `/` is floor division and `%` floor modulus (7 / 2 must fold to 3, not 3.5)"))
+    if prop == "C12":
+        f = ix.func("src/exo/rewrite/LoopIR_scheduling.py", "DoSimplify.cfold")
+        res.instances += 1
+        res.nontrivial += 1
+        ok = pat.has("return _M_l.val // _M_r.val", f.node) and pat.has("return _M_l.val % _M_r.val", f.node)
+        res.ob(ok)
+        if not ok:
+            res.add(Finding("ALGID", f.file, f.lineno, f.qualname, "fold:/,%", "constant folding of index `/` and `%` must use floor division / floor modulus"))
     if n_tot < 8:
         raise AnalysisError(f"ALGID: only {n_tot} identities extracted from the simplifier(s) — idioms changed, checker blind")
     res.floor = 8
